@@ -721,10 +721,15 @@ def gcc_check(c, h, workdir, stem):
     flags = list(GCC_FLAGS)
     if "immintrin.h" in c or "immintrin.h" in h:
         flags += VEC_FLAGS
-    try:
-        p = subprocess.run(["gcc", *flags, "-I", d, os.path.join(d, "c15.c")], capture_output=True, text=True,
-                           timeout=120)
-    except subprocess.TimeoutExpired:
+    p = None
+    for attempt in range(2):
+        try:
+            p = subprocess.run(["gcc", *flags, "-I", d, os.path.join(d, "c15.c")], capture_output=True,
+                               text=True, timeout=600)
+            break
+        except subprocess.TimeoutExpired:
+            p = None
+    if p is None:
         return None, "timeout", ""
     if p.returncode == 0:
         return True, "", ""
